@@ -411,6 +411,22 @@ def _cmul(ctx, n, batch, p):
     return O.ConstantMulLinearOperator(O.ToeplitzLinearOperator(col), c), toeplitz_ref(col) * c[..., None, None]
 
 
+@builder("ConstantMulBcast", tags=("fixedbatch",))
+def _cmul_bcast(ctx, n, batch, p):
+    # batch (2, 2); the constant varies along the FIRST batch dimension only and is broadcast along the second
+    c = ctx.leaf(p + "c", (2, 1, 1, 1))
+    A = ctx.leaf(p + "A", (2, 2, n, n))
+    return O.DenseLinearOperator(A) * c, A * c
+
+
+@builder("ConstantMulBcastLast", tags=("fixedbatch",))
+def _cmul_bcast_last(ctx, n, batch, p):
+    # the constant varies along the LAST batch dimension only
+    c = ctx.leaf(p + "c", (1, 2, 1, 1))
+    col = ctx.leaf(p + "col", (2, 2, n))
+    return O.ToeplitzLinearOperator(col) * c, toeplitz_ref(col) * c
+
+
 @builder("ConstantMulPos", psd=True, pd=True)
 def _cmul_pos(ctx, n, batch, p):
     c = ctx.leaf(p + "c", batch, positive=True)
